@@ -41,7 +41,8 @@ def mutate(r, t, ascii_only=False):
     for _ in range(r.choice([1, 1, 2, 3, 8])):
         if not t:
             break
-        k = r.choice(["flip", "flip", "del", "dup", "ins", "trunc", "swaplines", "dellines", "hexedit", "dropinstr"])
+        k = r.choice(["flip", "flip", "del", "dup", "ins", "trunc", "swaplines", "dellines", "hexedit", "dropinstr", "tagtype",
+                      "dropfirstline"])
         i = r.randrange(len(t))
         if k == "flip":
             t[i] = r.choice("0123456789ABCDEFabcdef:# >=,\n xZ" + ("" if ascii_only else "ä١"))
@@ -58,6 +59,23 @@ def mutate(r, t, ascii_only=False):
             t[i:i] = list(s)
         elif k == "trunc":
             del t[i:]
+        elif k in ("tagtype", "dropfirstline"):
+            # BF2 data lines ":" index(2) type(1) ...: give one line (preferably the first of a group) another tag type -
+            # a continuation type of some family (known to is_known_tagtype but no key of BF2_TAGTYPE_MAP), a mapped
+            # type, a marker (FE/FF) or an arbitrary byte; or delete the first data line of a group (wave-6 miss C14_1)
+            ls = "".join(t).split("\n")
+            dl = [j for j, l in enumerate(ls) if l.startswith(":") and len(l) >= 7]
+            first = [j for j in dl if j > 0 and ls[j - 1].startswith(":") and ls[j - 1][5:7].upper() == "FE"]
+            if dl:
+                j = r.choice(first) if first and r.random() < 0.7 else r.choice(dl)
+                if k == "dropfirstline":
+                    del ls[j]
+                else:
+                    ty = r.choice([0x36, 0x37, 0x38, 0x3A, 0x3B, 0x3C, 0x3E, 0x41, 0x44, 0x47, 0x71, 0x72, 0x73, 0x85, 0x86, 0x9F,
+                                   0xA3, 0xA4, 0x33, 0x34, 0x35, 0x39, 0x3D, 0x3F, 0x40, 0x48, 0x49, 0x6F, 0x70, 0x74, 0x82, 0x83,
+                                   0x84, 0xFE, 0xFF, 0x00, r.randrange(256)])
+                    ls[j] = ls[j][:5] + "%02X" % ty + ls[j][7:]
+                t = list("\n".join(ls))
         elif k == "dropinstr":
             # remove every "#>" instruction of one name, so that a "##" header of that name stays in force
             name = r.choice(["#>SELECT_IF", "#>SELECT ", "#>CHECK_FWVER", "#>CRC", "#>REBOOT"])
